@@ -925,7 +925,8 @@ Inductive op :=
 | OHasSamples (s : nat)
 | OPubUpdate (p : nat)
 | OSubUpdate (s : nat)
-| OExhaust (p : nat).        (* probe: loan until it fails, then drop those loans, newest first *)
+| OExhaust (p : nat)         (* probe: loan until it fails, then drop those loans, newest first *)
+| OFiles.                    (* probe (ipc only): number of zero-copy connections and of data segments that exist *)
 
 Inductive obs :=
 | BNa                                   (* the handle is not live: the harness does nothing *)
@@ -937,6 +938,7 @@ Inductive obs :=
 | BRecv (r : option (nat * nat * payload))     (* sample id, origin, content *)
 | BBool (b : bool)
 | BExh (n : nat) (e : err)
+| BFiles (conns datas : nat)
 | BBlocks.
 
 Definition pub_live (w : world) (p : nat) : bool := Nat.ltb p (length (w_pubs w)) && p_active (getp w p).
@@ -1041,6 +1043,7 @@ Definition step (w : world) (o : op) : res (world * obs) :=
       let '(w1, ls, e) := r in
       Val (fold_left loan_drop ls w1, BExh (length ls) e)
     else Val (w, BNa)
+  | OFiles => Val (w, BFiles (length (w_conns w)) (length (filter p_alive (w_pubs w))))
   end.
 
 (* ---------------------------------------------------------------------------------------- *)
